@@ -11,6 +11,8 @@ B3  the shipped .xls / .xlsx workbooks are read cell by cell (xlrd / openpyxl, i
 """
 import copy
 import json
+import multiprocessing
+import os
 import random
 import shutil
 import tempfile
@@ -22,7 +24,7 @@ from harness.gnpy_util import EX, TD, equipment
 from harness import workbook_util as wu
 
 ROOT = Path(__file__).resolve().parent.parent.parent
-QUICK_VALID = 700
+QUICK_VALID = 260
 
 
 class Bench:
@@ -35,7 +37,7 @@ class Bench:
         shutil.rmtree(self.wd, ignore_errors=True)
 
 
-def run_real(path, eq, services, bidir, want_design=True):
+def run_real(path, eq, services, bidir, want_design=True, service_path=None):
     """the real conversion chain on one workbook file -> observation record (+ details for the report)"""
     from gnpy.tools.convert import xls_to_json_data
     from gnpy.tools.json_io import network_from_json, load_requests
@@ -74,13 +76,32 @@ def run_real(path, eq, services, bidir, want_design=True):
             det['design_error'] = f'{type(e).__name__}: {str(e)[:300]}'
     if services and net is not None and obs['design'] == 'ok':
         try:
-            data = load_requests(path, eq, bidir=bidir, network=net, network_filename=path)
+            data = load_requests(service_path or path, eq, bidir=bidir, network=net, network_filename=path)
             svc, notes = wu.project_services(data)
             obs['svc'] = dict(status='ok', **svc)
         except Exception as e:                               # noqa
             obs['svc'] = dict(status=type(e).__name__, reqs=[], sync=[])
             det['service_error'] = f'{type(e).__name__}: {str(e)[:300]}'
     return obs, det
+
+
+_WORK = {}
+
+
+def _work(job):
+    """one workbook in a worker process (forked after the mutant, if any, was installed)"""
+    n, wb, as_int, bidir, wd = job
+    if 'eq' not in _WORK:
+        _WORK['eq'] = equipment('eqpt_config.json')
+    name = f'wb-{n}'
+    path = Path(wd) / f'{name}.xlsx'
+    wu.write_xlsx(wb, path, as_int=as_int)
+    try:
+        return n, run_real(path, _WORK['eq'], bool(wb['services']), bidir)
+    finally:
+        path.unlink(missing_ok=True)
+        for f in Path(wd).glob(f'{name}_services.json'):
+            f.unlink()
 
 
 def judge(traces, chk, tag):
@@ -112,13 +133,24 @@ def describe(wb):
     return f'sites={"+".join(sites)}|eqpt-on={"+".join(rows) or "none"}'
 
 
+def inconsistency(wb):
+    deg = {}
+    for ln in wb['links']:
+        for c in (ln['a'], ln['z']):
+            deg[c] = deg.get(c, 0) + 1
+    fused = {n['city'] for n in wb['nodes'] if n['type'] == 'FUSED'}
+    out = sorted({f'FUSED-degree-{deg.get(c, 0)}' for c in fused if deg.get(c, 0) != 2}
+                 | ({'Eqpt-row-on-FUSED'} if any(e['a'] in fused for e in wb['eqpt']) else set()))
+    return '+'.join(out)
+
+
 def run(chk):
     rng = random.Random(chk.seed)
-    r = tlc.run('MC_Workbook', timeout=1800, tag='c20-mc')
-    chk.add_mc('MC_Workbook (Model conforms, errors explained)', r)
+    # B1 and the emission for B2 in one exhaustive run: all invariants of the cfg plus Emit
+    cfg = (tlc.SPEC / 'MC_Workbook.cfg').read_text() + 'INVARIANT Emit\n'
+    r2 = tlc.run('MC_Workbook', cfg_text=cfg, timeout=1800, tag='c20-mc')
+    chk.add_mc('MC_Workbook (Model conforms to every clause, errors explained) + emission', r2)
     chk.exhaustive = True
-    r2 = tlc.run('MC_Workbook', cfg_text='INIT Init\nNEXT Next\nINVARIANT Emit\n', timeout=1800, tag='c20-emit')
-    chk.add_mc('MC_Workbook emission', r2)
     cases = sorted(r2.emitted, key=lambda c: json.dumps(c, sort_keys=True))
     if len(cases) < 3000:
         raise Machinery(f'only {len(cases)} workbooks emitted')
@@ -127,26 +159,31 @@ def run(chk):
             'eqpt_unknown_link', 'duplicate_eqpt', 'two_eqpt_on_ila'}
     if not need <= kinds_seen:
         raise Machinery(f'violation kinds never generated: {need - kinds_seen}')
-    special = [c for c in cases if c['kinds'] or c['wb']['services'] or c['undecided']]
-    plain = [c for c in cases if not (c['kinds'] or c['wb']['services'] or c['undecided'])]
-    todo = cases if chk.tier == 'thorough' else special + rng.sample(plain, min(QUICK_VALID, len(plain)))
+    by_kind = {}
+    for c in cases:
+        if c['kinds']:
+            by_kind.setdefault('+'.join(sorted(c['kinds'])), []).append(c)
+    special = [c for c in cases if c['wb']['services'] or c['inconsistent']]
+    for k in sorted(by_kind):                    # quick: every violation kind, at most 12 workbooks of each
+        special += rng.sample(by_kind[k], min(12, len(by_kind[k])))
+    undecided = [c for c in cases if c['undecided']]
+    plain = [c for c in cases if not (c['kinds'] or c['wb']['services'] or c['undecided'] or c['inconsistent'])]
+    todo = cases if chk.tier == 'thorough' else \
+        special + rng.sample(undecided, min(10, len(undecided))) + rng.sample(plain, min(QUICK_VALID, len(plain)))
     bench = Bench()
     try:
         traces, details = [], {}
+        jobs = [(n, c['wb'], rng.random() < 0.5, bool(n % 2), str(bench.wd)) for n, c in enumerate(todo)]
+        nproc = max(1, min(12, int(os.environ.get('VERIF_TLC_WORKERS', '16'))))
+        with multiprocessing.get_context('fork').Pool(nproc) as pool:
+            results = dict(pool.imap_unordered(_work, jobs, chunksize=8))
         for n, c in enumerate(todo):
-            wb = c['wb']
+            obs, det = results[n]
             name = f'wb-{n}'
-            path = bench.wd / f'{name}.xlsx'
-            wu.write_xlsx(wb, path, as_int=rng.random() < 0.5)
-            bidir = bool(n % 2)
-            obs, det = run_real(path, bench.eq, bool(wb['services']), bidir)
-            path.unlink(missing_ok=True)
-            for f in bench.wd.glob(f'{name}*_services.json'):
-                f.unlink()
-            tr = dict(name=name, wb=wb, bidir=bidir, obs=obs, judge_design=True, judge_services=True)
+            tr = dict(name=name, wb=c['wb'], bidir=bool(n % 2), obs=obs, judge_design=True, judge_services=True)
             traces.append(tr)
             details[name] = (tr, det, c)
-            chk.case(json.dumps(wb, sort_keys=True), nontrivial=True)
+            chk.case(json.dumps(c['wb'], sort_keys=True), nontrivial=True)
         verdicts = judge(traces, chk, 'c20-trace')
         n_err = n_und = 0
         for name, v in verdicts.items():
@@ -158,12 +195,14 @@ def run(chk):
             if not v['viol']:
                 chk.traces += 1
             for stage, clause in v['viol']:
-                kind = '+'.join(sorted(v['kinds'])) or 'valid'
-                sig = f'B2|{stage}|{clause}|{kind}|{describe(tr["wb"]) if kind == "valid" else ""}|obs={tr["obs"]["status"]}'
-                chk.violation(sig, dict(trace=name, stage=stage, clause=clause, workbook=tr['wb'], observed_status=tr['obs']['status'],
+                kind = '+'.join(sorted(v['kinds'])) or ('inconsistent:' + inconsistency(tr['wb']) if v['inconsistent'] else 'valid')
+                sig = f'B2|{stage}|{clause}|{kind}|obs={tr["obs"]["status"]}'
+                chk.violation(sig, dict(trace=name, stage=stage, clause=clause, workbook_class=describe(tr['wb']),
+                                        workbook=tr['wb'], observed_status=tr['obs']['status'],
                                         details=det, observed_topology=tr['obs']['topo'] if stage == 'Convert' else None,
                                         observed_services=tr['obs']['svc'] if stage == 'Services' else None))
         chk.cov.update(b2_workbooks=len(traces), b2_rejected_expected=n_err, b2_undecided=n_und,
+                       b2_inconsistent=sum(1 for v in verdicts.values() if v['inconsistent']),
                        b2_with_services=sum(1 for t in traces if t['wb']['services']), b2_enumerated=len(cases),
                        violation_kinds_generated=sorted(kinds_seen))
         ok = next((t for t in traces if t['wb']['eqpt'] and t['obs']['status'] == 'ok'), None)
@@ -175,7 +214,7 @@ def run(chk):
         if bad:
             chk.sample(dict(kind='B2 workbook violating a sanity rule', kinds=verdicts[bad['name']]['kinds'],
                             observed_status=bad['obs']['status'], error=details[bad['name']][1].get('error')))
-        run_b3(chk, bench)
+        run_b3(chk, bench, big=chk.tier == 'thorough')
     finally:
         bench.close()
     chk.assume('FUSED sites have degree 2 and no Eqpt row; link ends differ; PMD cells blank; amplifier restrictions, ROADM '
@@ -189,10 +228,20 @@ def run(chk):
     chk.cov['power_measured_deviation_udb'] = 0
 
 
-def run_b3(chk, bench):
+_EQ = {}
+SERVICE_ONLY = {'testService.xls': 'testTopology.xls'}
+
+
+def equipment_at(path):
+    from gnpy.tools.json_io import load_equipments_and_configs
+    if path not in _EQ:
+        _EQ[path] = load_equipments_and_configs(path, [], [])
+    return _EQ[path]
+
+
+def run_b3(chk, bench, big):
     files = sorted(list(EX.glob('*.xls')) + list(EX.glob('*.xlsx')) + list(TD.glob('*.xls')) + list(TD.glob('*.xlsx')))
     traces, details, skipped = [], {}, []
-    eq_tests = equipment('eqpt_config.json') if False else None
     for f in files:
         name = str(f.relative_to('/repo'))
         try:
@@ -203,16 +252,42 @@ def run_b3(chk, bench):
         if wb is None:
             skipped.append(dict(file=name, why=notes))
             continue
-        if not wb['nodes'] and not wb['links']:
-            skipped.append(dict(file=name, why='no Nodes / Links sheet (service-only workbook)'))
+        partner = None
+        if not wb['nodes'] and not wb['links'] and f.name in SERVICE_ONLY:
+            # a service-only workbook is used with the topology workbook the repository's tests pair it with
+            partner = f.parent / SERVICE_ONLY[f.name]
+            topo, notes2 = wu.read_workbook(partner)
+            wb = dict(topo, services=wb['services'])
+            notes = notes + notes2
+            name = f'{name} + {partner.name}'
+        elif not wb['nodes'] and not wb['links']:
+            skipped.append(dict(file=name, why='service-only workbook without valid rows (service errors are not in the domain)'))
             continue
-        from gnpy.tools.json_io import load_equipments_and_configs
-        eqf = (TD if f.parent == TD else EX) / 'eqpt_config.json'
-        eq = load_equipments_and_configs(eqf, [], [])
-        tmp = bench.wd / f.name
-        shutil.copy(f, tmp)
-        big = len(wb['links']) > 60
-        obs, det = run_real(tmp, eq, bool(wb['services']), False)
+        if len(wb['links']) > 60 and not big:
+            skipped.append(dict(file=name, why='large workbook: judged in the thorough tier only (TLC needs ~90 s for it)'))
+            continue
+        # the library: the one next to the workbook if it knows every amplifier / fibre type the sheets name, else the
+        # example library (the workbooks under tests/data are used with either in the repository's tests)
+        used = {e[s_]['type'] for e in wb['eqpt'] for s_ in ('east', 'west')} - {'', 'fused'}
+        used_f = {ln[s_]['fiber'] for ln in wb['links'] for s_ in ('east', 'west')} - {''}
+        eq = None
+        for eqf in ((TD if f.parent == TD else EX) / 'eqpt_config.json', EX / 'eqpt_config.json'):
+            cand = equipment_at(eqf)
+            if used <= set(cand['Edfa']) and used_f <= set(cand['Fiber']):
+                eq = cand
+                break
+        if eq is None:
+            eq = cand
+            notes = notes + ['amplifier / fibre types unknown to the shipped libraries: outside the vocabulary']
+        tmp = bench.wd / (partner or f).name
+        shutil.copy(partner or f, tmp)
+        stmp = None
+        if partner:
+            stmp = bench.wd / f.name
+            shutil.copy(f, stmp)
+        obs, det = run_real(tmp, eq, bool(wb['services']), False, service_path=stmp)
+        if stmp:
+            stmp.unlink()
         for g in bench.wd.glob('*_services.json'):
             g.unlink()
         tmp.unlink()
@@ -222,7 +297,6 @@ def run_b3(chk, bench):
         tr = dict(name=name, wb=wb, bidir=False, obs=obs, judge_design=not out_of_vocab,
                   judge_services=obs['svc']['status'] == 'ok')
         det['notes'] = notes
-        det['big'] = big
         traces.append(tr)
         details[name] = (tr, det)
     verdicts = judge(traces, chk, 'c20-files')
@@ -232,11 +306,12 @@ def run_b3(chk, bench):
         if not v['viol']:
             chk.traces += 1
         for stage, clause in v['viol']:
-            kind = '+'.join(sorted(v['kinds'])) or 'valid'
+            kind = '+'.join(sorted(v['kinds'])) or ('inconsistent:' + inconsistency(tr['wb']) if v['inconsistent'] else 'valid')
             chk.violation(f'B3|{Path(name).name}|{stage}|{clause}|{kind}|obs={tr["obs"]["status"]}',
                           dict(file=name, stage=stage, clause=clause, kinds=v['kinds'], observed_status=tr['obs']['status'],
                                details={k: v2 for k, v2 in det.items()}))
-    chk.cov['b3_workbooks_judged'] = [dict(file=n, expected='+'.join(sorted(v['kinds'])) or ('undecided' if v['undecided'] else 'valid'),
+    chk.cov['b3_workbooks_judged'] = [dict(file=n, expected='+'.join(sorted(v['kinds'])) or ('undecided' if v['undecided'] else
+                                                                                      'inconsistent' if v['inconsistent'] else 'valid'),
                                            observed=details[n][0]['obs']['status'], services=details[n][0]['obs']['svc']['status'])
                                       for n, v in verdicts.items()]
     chk.cov['b3_workbooks_not_judged'] = skipped
